@@ -698,3 +698,53 @@ func constFieldOfLiteral(st *pathState, ptr ssa.Value, field string) (constant.V
 	}
 	return nil, false
 }
+
+// sameFieldLoadCond: evalCond helper that correlates repeated tests of the
+// same struct field (two loads of base.F compared with nil or a constant are
+// the same decision as long as the function does not store to that field).
+// Returns the truth already established on the path for an equivalent
+// condition.
+func sameFieldLoadCond(st *pathState, cond ssa.Value) (bool, bool) {
+	key := func(v ssa.Value) (string, bool) {
+		b, ok := v.(*ssa.BinOp)
+		if !ok {
+			return "", false
+		}
+		side := func(x ssa.Value) (string, bool) {
+			if c, ok := x.(*ssa.Const); ok {
+				return "const:" + c.String(), true
+			}
+			if u, ok := x.(*ssa.UnOp); ok && u.Op == token.MUL {
+				if fa, ok := u.X.(*ssa.FieldAddr); ok {
+					return "load:" + fa.X.Name() + "." + fieldVarOf(fa).Name(), true
+				}
+				// deref of a loaded pointer field
+				if u2, ok := u.X.(*ssa.UnOp); ok && u2.Op == token.MUL {
+					if fa, ok := u2.X.(*ssa.FieldAddr); ok {
+						return "deref:" + fa.X.Name() + "." + fieldVarOf(fa).Name(), true
+					}
+				}
+			}
+			return "", false
+		}
+		l, ok1 := side(b.X)
+		r, ok2 := side(b.Y)
+		if !ok1 || !ok2 {
+			return "", false
+		}
+		return b.Op.String() + "|" + l + "|" + r, true
+	}
+	k, ok := key(cond)
+	if !ok {
+		return false, false
+	}
+	for v, t := range st.Facts {
+		if v == cond {
+			continue
+		}
+		if k2, ok := key(v); ok && k2 == k {
+			return t, true
+		}
+	}
+	return false, false
+}
